@@ -112,6 +112,9 @@ type Unit struct {
 	qn           int
 	topParams    map[string]Val
 	frameExtra   []specLoc
+	lin          map[string]linForm
+	pendLin      *linForm
+	litLen       map[string]int
 	divCache     map[string][2]string
 	recDefs      map[string]*recDef
 	lockState    *State
@@ -562,6 +565,9 @@ func (u *Unit) runFunc(fn *ssa.Function, args []Val, st *State, parent *Frame, p
 			loops[bi] = lc
 			// 1. invariant on entry
 			if ls != nil {
+				for _, ux := range ls.EntryUses {
+					u.useLemma(f, cur, u.loopEnv(f, cur, fn, bi), ux)
+				}
 				for _, inv := range ls.Invariants {
 					t := u.specLoop(f, cur, inv.Expr, fn, bi)
 					u.oblige(f, cur, "inv-entry", fmt.Sprintf("loop%d:%s", ord, inv.label()), t, token.NoPos)
@@ -587,6 +593,9 @@ func (u *Unit) runFunc(fn *ssa.Function, args []Val, st *State, parent *Frame, p
 			if ls != nil {
 				for _, inv := range ls.Invariants {
 					u.assume(cur, u.specLoop(f, cur, inv.Expr, fn, bi))
+				}
+				for _, ux := range ls.Uses {
+					u.useLemma(f, cur, u.loopEnv(f, cur, fn, bi), ux)
 				}
 				if ls.Decreases != nil {
 					v := u.specLoop(f, cur, ls.Decreases, fn, bi)
@@ -1182,8 +1191,14 @@ func (u *Unit) instr(f *Frame, st *State, ins ssa.Instruction) {
 		u.unop(f, st, x)
 	case *ssa.BinOp:
 		a, b := u.value(f, st, x.X), u.value(f, st, x.Y)
+		u.pendLin = nil
 		t := u.binop(f, st, x.Op, a, b, x.Type(), x.Pos())
-		f.vals[x] = Val{T: u.em.define(x.Name(), u.em.sortOf(x.Type()), t), Ty: x.Type()}
+		nm := u.em.define(x.Name(), u.em.sortOf(x.Type()), t)
+		if u.pendLin != nil && nm != t {
+			u.lin[nm] = *u.pendLin
+		}
+		u.pendLin = nil
+		f.vals[x] = Val{T: nm, Ty: x.Type()}
 	case *ssa.FieldAddr:
 		p := u.value(f, st, x.X)
 		stt := x.X.Type().Underlying().(*types.Pointer).Elem().Underlying().(*types.Struct)
@@ -1462,7 +1477,17 @@ func (u *Unit) sliceOp(f *Frame, st *State, x *ssa.Slice) {
 			return
 		}
 		r := fmt.Sprintf("(mkSlice %s %s (- %s %s) (- %s %s))", base.T, lo, hi, lo, mx, lo)
-		f.vals[x] = Val{T: u.em.define(x.Name(), "Slice", r), Ty: x.Type()}
+		nm := u.em.define(x.Name(), "Slice", r)
+		if isNumeral(lo) && isNumeral(hi) {
+			var a, b int
+			fmt.Sscan(lo, &a)
+			fmt.Sscan(hi, &b)
+			if u.litLen == nil {
+				u.litLen = map[string]int{}
+			}
+			u.litLen[nm] = b - a
+		}
+		f.vals[x] = Val{T: nm, Ty: x.Type()}
 	default:
 		u.errf("Slice on %s", x.X.Type())
 	}
@@ -1677,6 +1702,8 @@ func (u *Unit) divmod(f *Frame, st *State, a, b string, ty types.Type, wantMod b
 	// arithmetic lemmas (true of the integers) that the solvers do not find reliably by themselves
 	u.em.pre("(assert (forall ((k Int) (b Int)) (! (=> (and (>= k 0) (> b 0)) (and (= (umod (* k b) b) 0) (= (udiv (* k b) b) k))) :pattern ((umod (* k b) b)) :pattern ((udiv (* k b) b)))))")
 	u.em.pre("(assert (forall ((a Int) (b Int)) (! (=> (and (>= a 0) (> b 0)) (and (= (umod (+ a b) b) (umod a b)) (= (udiv (+ a b) b) (+ (udiv a b) 1)))) :pattern ((umod (+ a b) b)) :pattern ((udiv (+ a b) b)))))")
+	u.em.pre("(assert (forall ((k Int) (b Int) (c Int)) (! (=> (and (>= k 0) (<= 0 c) (< c b)) (and (= (sdiv (+ (* k b) c) b) k) (= (smod (+ (* k b) c) b) c))) :pattern ((sdiv (+ (* k b) c) b)) :pattern ((smod (+ (* k b) c) b)))))")
+	u.em.pre("(assert (forall ((k Int) (b Int) (c Int)) (! (=> (and (>= k 0) (<= 0 c) (< c b)) (and (= (udiv (+ (* k b) c) b) k) (= (umod (+ (* k b) c) b) c))) :pattern ((udiv (+ (* k b) c) b)) :pattern ((umod (+ (* k b) c) b)))))")
 	var q, r string
 	if isUnsigned(ty) {
 		q, r = fmt.Sprintf("(udiv %s %s)", a, b), fmt.Sprintf("(umod %s %s)", a, b)
@@ -1816,8 +1843,14 @@ func (u *Unit) binop(f *Frame, st *State, op token.Token, a, b Val, resTy types.
 	}
 	switch op {
 	case token.ADD:
+		if t, ok := u.linFold(a.T, b.T, 1, uns); ok {
+			return t
+		}
 		return arith(fmt.Sprintf("(+ %s %s)", a.T, b.T))
 	case token.SUB:
+		if t, ok := u.linFold(a.T, b.T, -1, uns); ok {
+			return t
+		}
 		return arith(fmt.Sprintf("(- %s %s)", a.T, b.T))
 	case token.MUL:
 		return arith(fmt.Sprintf("(* %s %s)", a.T, b.T))
@@ -2003,4 +2036,58 @@ func isRealConst(t string) bool {
 		}
 	}
 	return true
+}
+
+// linForm: an integer term known to be base + off (off a small literal).
+type linForm struct {
+	base string
+	off  int64
+}
+
+// linFold folds x +/- literal chains: (x+1)-1 becomes x, so that terms built along
+// different routes stay syntactically equal (helps congruence under uninterpreted functions).
+// Only for signed (mathematical) integers; unsigned arithmetic wraps and is left alone
+// unless the unit is in nowrap mode.
+func (u *Unit) linFold(a, b string, sign int64, uns bool) (string, bool) {
+	if uns && !u.nowrap {
+		return "", false
+	}
+	if u.lin == nil {
+		u.lin = map[string]linForm{}
+	}
+	var base string
+	var off int64
+	lit := func(s string) (int64, bool) {
+		if isNumeral(s) && len(s) < 15 {
+			var v int64
+			fmt.Sscan(s, &v)
+			return v, true
+		}
+		return 0, false
+	}
+	if c, ok := lit(b); ok {
+		base, off = a, sign*c
+	} else if c, ok := lit(a); ok && sign == 1 {
+		base, off = b, c
+	} else {
+		return "", false
+	}
+	if lf, ok := u.lin[base]; ok {
+		base, off = lf.base, lf.off+off
+	}
+	var t string
+	switch {
+	case off == 0:
+		t = base
+	case off > 0:
+		t = fmt.Sprintf("(+ %s %d)", base, off)
+	default:
+		t = fmt.Sprintf("(- %s %d)", base, -off)
+	}
+	u.pendLin = &linForm{base: base, off: off}
+	if uns {
+		// nowrap mode without proof obligation here would be unsound: let the caller emit it
+		return "", false
+	}
+	return t, true
 }
